@@ -9,7 +9,7 @@ for l in open('/verif/properties.jsonl'):
 wt = "/tmp/seed%s-%s" % (wave, pid)
 out = "/tmp/seedout%s" % wave
 extra5 = ("\n- The code was repaired in many places recently (about a hundred small fixes: clean-up after failures, identity instead of equality, handling of plain-value models, nested loads, separators that a repetition gave back, qualified grammar names, the registry, the CLI, exports). Aim each change at one of those REPAIRS or at code next to them: read `git log --oneline | grep fix:` and `git show <commit>` for a few fixes that concern this property, and make a change that quietly undoes or weakens such a repair for some inputs only (a condition narrowed or widened, a guard moved, a helper called in one place less), or breaks the interplay of two repairs. The two changes must concern different repairs.")
-extra = extra5 if wave == "5" else ("\n- Prefer places that are NOT the first that come to mind for this property: the property is usually implemented by several cooperating functions and files (including caches, clean-up paths, helper modules, the CLI, less common API entry points and options); pick two different ones, in different functions." if wave == "2" else "\n- Neither change may sit in the function that most obviously implements this property, and at least one of the two must be outside textx/model.py and textx/lang.py if the property allows it. Prefer changes that only manifest in interaction with a meta-model option or feature (ignore_case, autokwd, memoization, skipws / ws, use_regexp_group, auto_init_attributes, textx_tools_support, global_repository, builtin models / builtins, user classes, object/model processors, grammar imports, rule modifiers, repetition modifiers) or with multi-step usage (several loads with one meta-model, several meta-models in one process, a failed load followed by a good one)." if wave else ""))
+extra = extra5 if wave == "5" else ("\n- Prefer places that are NOT the first that come to mind for this property: the property is usually implemented by several cooperating functions and files (including caches, clean-up paths, helper modules, the CLI, less common API entry points and options); pick two different ones, in different functions." if wave == "2" else "\n- Neither change may sit in the function that most obviously implements this property, and at least one of the two must be outside textx/model.py and textx/lang.py if the property allows it. Prefer changes that only manifest in interaction with a meta-model option or feature (ignore_case, autokwd, memoization, skipws / ws, use_regexp_group, auto_init_attributes, textx_tools_support, global_repository, builtin models / builtins, user classes, object/model processors, grammar imports, rule modifiers, repetition modifiers) or with multi-step usage (several loads with one meta-model, several meta-models in one process, a failed load followed by a good one)." if wave else "")
 print(f"""You are helping test a verification harness for the Python library textX (a meta-language that compiles Xtext-like grammars into Arpeggio PEG parsers plus dynamic metamodel classes, and builds linked object models with scoping).
 
 You have your own scratch git worktree of the textX repository at {wt} (work ONLY there; never touch /repo or /verif, and do not read anything under /verif). Python is /venv/bin/python. To make sure your worktree's sources are imported, run things as: cd {wt} && PYTHONPATH={wt} /venv/bin/python ...
